@@ -450,6 +450,71 @@ Definition num_le (c : cval) (n : Z) : bool :=
   | _ => false
   end.
 
+(* core/config/validations.go EndpointStringValidation: net.SplitHostPort, then
+   (host == "" || govalidator.IsHost(host)) && govalidator.IsPort(port).
+   Modelled for the plain form host:port (exactly one colon, no brackets); bracketed IPv6 literals and anything
+   with more colons go to the oracle.  IsPort = strconv.Atoi in 1..65535; IsHost of a colon-free host = the
+   DNS-name pattern of govalidator (dotted decimals match it too). *)
+Definition is_digit (c : N) : bool := (48 <=? c) && (c <=? 57).
+Definition is_alnum_us (c : N) : bool :=
+  is_digit c || ((65 <=? c) && (c <=? 90)) || ((97 <=? c) && (c <=? 122)) || (c =? 95).
+
+Fixpoint digits_val (acc : Z) (s : str) : option Z :=
+  match s with
+  | [] => Some acc
+  | c :: r => if is_digit c then digits_val (acc * 10 + Z.of_N (c - 48))%Z r else None
+  end.
+
+(* strconv.Atoi: optional sign, at least one digit *)
+Definition atoi (s : str) : option Z :=
+  match s with
+  | [] => None
+  | c :: r =>
+      if c =? 43 then match r with [] => None | _ => digits_val 0 r end
+      else if c =? 45 then match r with [] => None | _ => option_map Z.opp (digits_val 0 r) end
+      else digits_val 0 s
+  end.
+
+Definition port_ok (s : str) : bool :=
+  match atoi s with Some z => Z.ltb 0 z && Z.ltb z 65536 | None => false end.
+
+Fixpoint split_dots (acc : str) (s : str) : list str :=
+  match s with
+  | [] => [rev acc]
+  | c :: r => if c =? 46 then rev acc :: split_dots [] r else split_dots (c :: acc) r
+  end.
+
+Definition label_ok (l : str) : bool :=
+  match l with
+  | [] => false
+  | c :: r => is_alnum_us c && forallb (fun x => is_alnum_us x || (x =? 45)) r && Nat.leb (length l) 63
+  end.
+
+Definition dns_ok (h : str) : bool :=
+  let body := match rev h with c :: r => if c =? 46 then rev r else h | [] => h end in   (* one optional trailing dot *)
+  match body with
+  | [] => false
+  | _ => forallb label_ok (split_dots [] body) && Nat.leb (length (filter (fun c => negb (c =? 46)) h)) 255
+  end.
+
+Fixpoint count_byte (b : N) (s : str) : nat :=
+  match s with [] => O | c :: r => if c =? b then S (count_byte b r) else count_byte b r end.
+
+Fixpoint split_colon (acc : str) (s : str) : option (str * str) :=
+  match s with
+  | [] => None
+  | c :: r => if c =? c_colon then Some (rev acc, r) else split_colon (c :: acc) r
+  end.
+
+Definition endpoint_ok (s : str) : bool :=
+  if Nat.eqb (count_byte c_colon s) 1 && Nat.eqb (count_byte 91 s) 0 && Nat.eqb (count_byte 93 s) 0 then
+    match split_colon [] s with
+    | Some (host, port) => (match host with [] => true | _ => dns_ok host end) && port_ok port
+    | None => false
+    end
+  else if Nat.eqb (count_byte c_colon s) 0 then false            (* missing port in address *)
+  else match orc OEndpoint s with Some _ => true | None => false end.
+
 Definition check_tag (s : schema) (c : cval) (t : vtag) : bool :=
   match t with
   | TRequired => has_value s c
@@ -459,7 +524,7 @@ Definition check_tag (s : schema) (c : cval) (t : vtag) : bool :=
   | TMaxTime ns => match s, c with SScalar KDuration, CInt z => Z.leb z ns | _, _ => false end
   | TMinSize n => match s, c with SScalar KSize, CInt z => Z.leb n z | _, _ => false end
   | TMaxSize n => match s, c with SScalar KSize, CInt z => Z.leb z n | _, _ => false end
-  | TEndpoint => match c with CStr x => match orc OEndpoint x with Some _ => true | None => false end | _ => false end
+  | TEndpoint => match c with CStr x => endpoint_ok x | _ => false end
   | TUrlPath => match c with CStr x => match orc OUrlPath x with Some _ => true | None => false end | _ => false end
   | TDive => true
   end.
